@@ -320,6 +320,109 @@ def gen_history(rng):
     return h[:30]
 
 
+# ------------------------------------------------------------------ placeholders of tensor arguments: model vs _to_tracer / __eq__
+def placeholder_pool():
+    class Foreign:
+        def __init__(self, shape):
+            self.shape = tuple(shape)
+
+    class Sub(np.ndarray):
+        pass
+
+    class CallA:
+        def __call__(self, shape):
+            return np.zeros(shape)
+
+    class CallB:
+        def __call__(self, shape):
+            return np.zeros(shape)
+
+    def f1(shape): return np.zeros(shape)                       # noqa: E704
+    def f2(shape): return np.ones(shape)                        # noqa: E704
+    def f3(shape, name): return np.zeros(shape)                 # noqa: E704
+    def f4(name, shape): return np.zeros(shape)                 # noqa: E704
+    def f5(shape, *, name=None): return np.zeros(shape)         # noqa: E704
+    def f6(shape, name=None): return np.zeros(shape)            # noqa: E704
+    def f7(shape, name="x"): return np.zeros(shape)             # noqa: E704
+    def f8(shape, **kw): return np.zeros(shape)                 # noqa: E704
+    def f9(shape, name: str = None): return np.zeros(shape)     # noqa: E704
+    def f10(shape, name=1): return np.zeros(shape)              # noqa: E704
+    def f11(shape, name=1.0): return np.zeros(shape)            # noqa: E704
+    def f12(shape, arg_index=None, name=None): return np.zeros(shape)   # noqa: E704
+    def f13(shape, name=None, arg_index=None): return np.zeros(shape)   # noqa: E704
+    pool = [Foreign(()), Foreign((2,)), Foreign((2, 3)), Foreign((3, 2)), Foreign((2, 3)),
+            np.zeros(()), np.zeros((2,)), np.zeros((2, 3)), np.ones((2, 3), "int32"), np.zeros((3, 2)), np.zeros((1,)), np.zeros((2, 3)).view(Sub),
+            np.zeros((2, 3)).T, 1, 2, 1.0, True, np.float32(1), np.int64(1), np.bool_(True), np.float64(1),
+            f1, f2, f3, f4, f5, f6, f7, f8, f9, f10, f11, f12, f13, (lambda shape: 0), (lambda shape, name=None: 0), CallA(), CallA(), CallB(), int, np.zeros, len]
+    stub = __import__("types").SimpleNamespace(is_supported_tensor=lambda x: isinstance(x, Foreign), get_shape=lambda x: tuple(x.shape))
+    return pool, stub
+
+
+def placeholder_correspondence(ctx):
+    """the Gallina model of the placeholders (rows of _to_tracer and the attributes __eq__ compares, both regenerated) against the
+    real _to_tracer / == / hash on every pair of a pool of arguments of every kind"""
+    import inspect
+    try:
+        from einx._src.frontend import api as eapi
+        pool, stub = placeholder_pool()
+        phs = [eapi._to_tracer(eapi.TensorArg(x), stub, name="argument") for x in pool]
+    except Exception as e:
+        ctx.tie_breaks.append(f"placeholder correspondence: _to_tracer could not be driven from the outside: {type(e).__name__}: {e}")
+        return
+    types_seen, defaults_seen = [], []
+
+    def ident(lst, x, eq):
+        for i, y in enumerate(lst):
+            if eq(x, y):
+                return i
+        lst.append(x)
+        return len(lst) - 1
+
+    def model_arg(x):
+        if stub.is_supported_tensor(x):
+            kind, shape = "native", list(x.shape)
+        elif isinstance(x, np.ndarray):
+            kind, shape = "ndarray", list(x.shape)
+        elif eapi._is_scalar(x):
+            kind, shape = "scalar", []
+        else:
+            kind, shape = "callable", []
+        params = []
+        if kind == "callable":
+            try:
+                sig = inspect.signature(x)
+            except ValueError:
+                sig = inspect.signature(lambda shape: None)
+            for nme, prm in sig.parameters.items():
+                d = ident(defaults_seen, prm.default, lambda a, b: a is b or (type(a) is not type and a == b))
+                an = ident(defaults_seen, prm.annotation, lambda a, b: a is b or (type(a) is not type and a == b))
+                params.append(f"{nme}.{int(prm.kind)}.{d}.{an}")
+            params.sort()       # a dict of parameters compares without regard to order; einx only tests membership and kind
+        return [kind, shape, ident(types_seen, type(x), lambda a, b: a is b), params]
+    margs = [model_arg(x) for x in pool]
+    pairs = [(i, j) for i in range(len(pool)) for j in range(len(pool))]
+    m = common.Model()
+    outs = m.batch([common.sx(["tracerkey_eq", [margs[i], margs[j]]]) for i, j in pairs])
+    n_eq = 0
+    for (i, j), o in zip(pairs, outs):
+        real = bool(phs[i] == phs[j])
+        n_eq += real
+        cls = [type(phs[i]).__name__ == "ConvertibleTensor", type(phs[j]).__name__ == "ConvertibleTensor"]
+        if o == "none" or o[0] not in ("T", "F"):
+            ctx.report({"kind": "placeholder_model_has_no_row"}, {"args": [repr(pool[i])[:80], repr(pool[j])[:80]], "model": o})
+            continue
+        if (o[0] == "T") != real or [o[1] == "T", o[2] == "T"] != cls:
+            ctx.report({"kind": "placeholder_equality_differs_from_model", "real": real},
+                       {"args": [repr(pool[i])[:80], repr(pool[j])[:80]], "model": o, "real": real, "classes": cls, "model_args": [margs[i], margs[j]]})
+        if i == j:
+            try:
+                hash(phs[i])        # (equal placeholders with different hashes only make the cache miss: not a C06 matter)
+            except Exception as e:
+                ctx.report({"kind": "placeholder_not_hashable", "exc": type(e).__name__}, {"args": [repr(pool[i])[:80]]})
+    ctx.coverage["placeholder_pairs_model_vs_impl"] = {"pairs": len(pairs), "equal_pairs": n_eq, "pool": len(pool),
+                                                       "kinds": {k: sum(1 for a in margs if a[0] == k) for k in ("native", "ndarray", "scalar", "callable")}}
+
+
 def _cold(spec):
     return in_child(execute, spec)
 
@@ -334,6 +437,7 @@ def run(ctx):
     import gc
     gc.collect()
     gc.freeze()
+    placeholder_correspondence(ctx)
     n = 22 if ctx.tier == "quick" else 220
     hs = [gen_history(ctx.rng)[: (14 if ctx.tier == "quick" else 30)] for _ in range(n)]
     hs += [adapter_history(ctx.rng) for _ in range(3 if ctx.tier == "quick" else 40)]
